@@ -7,6 +7,7 @@
    fails on a foreign tag, pickle by a table (objects |-> stdlib pickle bytes) carried in the case.
 
      ("text",    files, path, parts, minP)          -> (listing with decoded contents, glom of textFile)
+     ("textwhole", files, path, parts, minP)        -> (listing with decoded contents, glom of wholeTextFiles)
      ("pickle",  files, path, parts, minP, table)   -> (listing with decoded contents, glom of pickleFile)
      ("read",    files, path, minP, meta)           -> glom of textFile
      ("whole",   files, path, minP, meta)           -> glom of wholeTextFiles
@@ -119,6 +120,21 @@ Definition run (c : val) : val :=
             | Some fl, Some ps, Some m =>
                 match save_text toy_compress (mk_fs fl) p ps with
                 | Ok f' => VTup [listing f'; of_res (vglom VStr) (read_text toy_decompress f' p m)]
+                | Err e => VErr e
+                end
+            | _, _, _ => VBad
+            end
+        | _ => VBad
+        end
+      else if kind_is k "textwhole" then
+        match args with
+        | [VList files; VStr p; VList parts; minP] =>
+            match all_files files, all_str_parts parts, as_minP minP with
+            | Some fl, Some ps, Some m =>
+                match save_text toy_compress (mk_fs fl) p ps with
+                | Ok f' => VTup [listing f';
+                                 of_res (vglom (fun ns : path * str => VTup [VStr (fst ns); VStr (snd ns)]))
+                                        (whole_text_files toy_decompress f' p m)]
                 | Err e => VErr e
                 end
             | _, _, _ => VBad
